@@ -28,7 +28,8 @@ TRUSTED_BASE = [
 def scan_forbidden():
     """Admitted/Axiom/... anywhere in the development (Section Variables/Hypotheses are allowed inside sections)."""
     hits = []
-    for p in build.coq_sources():
+    gen = [build.GEN + '/' + f for f in sorted(os.listdir(build.GEN)) if f.endswith('.v')] if os.path.isdir(build.GEN) else []
+    for p in build.coq_sources() + gen:
         depth = 0
         text = open(p).read()
         text = re.sub(r'\(\*.*?\*\)', lambda m: ' ' * len(m.group(0)) if '\n' not in m.group(0) else re.sub(r'[^\n]', ' ', m.group(0)), text, flags=re.S)
@@ -187,6 +188,27 @@ class Ctx:
             self.discharged += len(names)
         self.extra.setdefault('print_assumptions', {})[prop_file] = {'closed': closed, 'axioms': sorted(named)}
         return not self.proof_problems
+
+    def table_proofs(self, pin_file):
+        """theorems about the tables regenerated from the crate source (gen/): each 'Theorem' of gen/<pin_file> is an obligation"""
+        src = open(build.GEN + '/' + pin_file).read()
+        names = re.findall(r'^\s*Theorem\s+(\w+)', src, flags=re.M)
+        self.obligations += len(names)
+        self.theorems += names
+        before = len(self.proof_problems)
+        try:
+            out = build.table_proofs(pin_file)
+        except build.BuildError as e:
+            self.proof_problems.append(('table-proofs:' + e.what, e.output[-3000:]))
+            return False
+        closed = len(re.findall(r'Closed under the global context', out))
+        printed = re.findall(r'Print Assumptions\s+(\w+)', src)
+        if [n for n in names if n not in printed] or closed < len(names):
+            self.proof_problems.append(('assumption-reports (tables)', 'expected %d, saw %d' % (len(names), closed)))
+        if len(self.proof_problems) == before:
+            self.discharged += len(names)
+        self.extra.setdefault('print_assumptions', {})['gen/' + pin_file] = {'closed': closed, 'axioms': []}
+        return len(self.proof_problems) == before
 
     # ---- known findings
     def known_open(self, cls):
